@@ -82,34 +82,7 @@ def run(ctx) -> None:
         ok = aware or delegates or msg_only
         why = "reads batch ids" if aware else ("delegates to the batch-aware resolver" if delegates else "result only feeds an error message (exempt)")
         rep.add("C06.R1", f"{f.qname}:batch-aware", ok, f.loc(), why if ok else "walks the rename history entry by entry without batch ids: a parallel swap (with_inputs(x='y', y='x')) chains onto itself and resolves to the wrong original name")
-    for f in (brm, bfm):
-        # the inner per-batch loop must not write the map it looks up
-        inner = [n for n in walk_local(f.node) if isinstance(n, ast.For) and enclosing(n, (ast.For,)) is not None]
-        ok = bool(inner)
-        why = "per-batch loop not found"
-        for lp in inner:
-            looked = set()
-            for x in ast.walk(lp):
-                if isinstance(x, ast.Call) and isinstance(x.func, ast.Attribute) and x.func.attr in ("get", "items", "values", "keys") and isinstance(x.func.value, ast.Name):
-                    looked.add(x.func.value.id)
-                if isinstance(x, ast.Subscript) and isinstance(x.ctx, ast.Load) and isinstance(x.value, ast.Name):
-                    looked.add(x.value.id)
-            written = set()
-            for x in ast.walk(lp):
-                if isinstance(x, ast.Subscript) and isinstance(x.ctx, ast.Store) and isinstance(x.value, ast.Name):
-                    written.add(x.value.id)
-                if isinstance(x, ast.Call) and isinstance(x.func, ast.Attribute) and x.func.attr in ("update", "setdefault", "pop") and isinstance(x.func.value, ast.Name):
-                    written.add(x.func.value.id)
-            both_ = looked & written
-            if both_:
-                ok, why = False, f"the per-batch loop writes the map it looks up ({sorted(both_)}): renames of one batch chain onto each other"
-            else:
-                why = "look-ups use the state before the batch; the batch's updates are applied after the loop"
-            outer = enclosing(lp, (ast.For,))
-            applied = any(isinstance(x, ast.Call) and isinstance(x.func, ast.Attribute) and x.func.attr == "update" and isinstance(x.func.value, ast.Name) and x.func.value.id in looked and not contains(lp, x) for x in ast.walk(outer))
-            if ok and not applied:
-                ok, why = False, "the batch's updates are never applied to the look-up map"
-        rep.add("C06.R1", f"{f.qname}:batch-isolation", ok, f.loc(), why)
+    check_batch_isolation(ctx, "C06.R1", (brm, bfm))
 
     # ---- R2 ---------------------------------------------------------------------
     seen = set()
@@ -226,6 +199,40 @@ def run(ctx) -> None:
                 rep.add("C06.R7", f"{f.qname}", filt, f"{f.module.rel}:{n.lineno}", "inversion is restricted to the node's current names" if filt else "inverts the reverse rename map including abandoned intermediate names: after r->x, x->z, z->x the stale entry wins and values are published under a name the node no longer has")
     if n_inv == 0:
         rep.ok("C06.R7", "no-inversion-sites", "src/hypergraph/nodes:1", "no function inverts a reverse rename map (positive example checked in the self-test)")
+
+
+
+def check_batch_isolation(ctx, rule: str, funcs) -> None:
+    """The per-batch loop of a rename-map builder must not write the map it looks up."""
+    rep = ctx.rep
+    for f in funcs:
+        # the inner per-batch loop must not write the map it looks up
+        inner = [n for n in walk_local(f.node) if isinstance(n, ast.For) and enclosing(n, (ast.For,)) is not None]
+        ok = bool(inner)
+        why = "per-batch loop not found"
+        for lp in inner:
+            looked = set()
+            for x in ast.walk(lp):
+                if isinstance(x, ast.Call) and isinstance(x.func, ast.Attribute) and x.func.attr in ("get", "items", "values", "keys") and isinstance(x.func.value, ast.Name):
+                    looked.add(x.func.value.id)
+                if isinstance(x, ast.Subscript) and isinstance(x.ctx, ast.Load) and isinstance(x.value, ast.Name):
+                    looked.add(x.value.id)
+            written = set()
+            for x in ast.walk(lp):
+                if isinstance(x, ast.Subscript) and isinstance(x.ctx, ast.Store) and isinstance(x.value, ast.Name):
+                    written.add(x.value.id)
+                if isinstance(x, ast.Call) and isinstance(x.func, ast.Attribute) and x.func.attr in ("update", "setdefault", "pop") and isinstance(x.func.value, ast.Name):
+                    written.add(x.func.value.id)
+            both_ = looked & written
+            if both_:
+                ok, why = False, f"the per-batch loop writes the map it looks up ({sorted(both_)}): renames of one batch chain onto each other"
+            else:
+                why = "look-ups use the state before the batch; the batch's updates are applied after the loop"
+            outer = enclosing(lp, (ast.For,))
+            applied = any(isinstance(x, ast.Call) and isinstance(x.func, ast.Attribute) and x.func.attr == "update" and isinstance(x.func.value, ast.Name) and x.func.value.id in looked and not contains(lp, x) for x in ast.walk(outer))
+            if ok and not applied:
+                ok, why = False, "the batch's updates are never applied to the look-up map"
+        rep.add(rule, f"{f.qname}:batch-isolation", ok, f.loc(), why)
 
 
 
